@@ -155,13 +155,13 @@ def tableAgrees (cfg : Cfg) : Bool :=
   (List.range 256).all (fun c => c == 0 || c == 26 || c == 38 || c == 48 || codeAgrees cfg c) &&
     Gen.sgrStyleMap.all (fun p => decide (p.1 < 256)) && ecmaTable.all (fun p => decide (p.1 < 256))
 
-theorem table_agrees_ecma : tableAgrees ⟨false, false, false, false, false⟩ = true := by
+theorem table_agrees_ecma : tableAgrees Cfg.repaired = true := by
   decide +kernel
 
 theorem codeAgrees_all (cfg : Cfg) (ho : cfg.offSingle = false) (hr : cfg.resetDropsLink = false) (c : Nat)
     (h0 : c ≠ 0) (h26 : c ≠ 26) (h38 : c ≠ 38) (h48 : c ≠ 48) : codeAgrees cfg c = true := by
-  have hsame : codeAgrees cfg c = codeAgrees ⟨false, false, false, false, false⟩ c := by
-    simp [codeAgrees, sgrLookupV, ho]
+  have hsame : codeAgrees cfg c = codeAgrees Cfg.repaired c := by
+    simp [codeAgrees, sgrLookupV, ho, Cfg.repaired]
   rw [hsame]
   have ht := table_agrees_ecma
   simp only [tableAgrees, Bool.and_eq_true, List.all_eq_true, List.mem_range, Bool.or_eq_true, beq_iff_eq,
@@ -188,9 +188,9 @@ theorem codeAgrees_all (cfg : Cfg) (ho : cfg.offSingle = false) (hr : cfg.resetD
       intro p hp
       have := h3 p hp
       simp only [beq_iff_eq]; omega
-    have e3 : sgrLookupV ⟨false, false, false, false, false⟩ c = none := by
+    have e3 : sgrLookupV Cfg.repaired c = none := by
       have : c ≠ 24 ∧ c ≠ 25 := by omega
-      simp [sgrLookupV, this.1, this.2, e1]
+      simp [sgrLookupV, this.1, this.2, e1, Cfg.repaired]
     simp [codeAgrees, e3, e2]
 
 /-! ### the extended colours -/
